@@ -2,7 +2,7 @@
 from contracts import radiometry as _r
 
 META = {
-    'level_text': 'Proof by complete enumeration plus symbolic algebra, executing the real conversion methods through the interpreter with exact rationals for the decimal literals: all 64 wavelength-unit triples compose (A->B->C = A->C, A->A = 1, every factor is the ratio of the SI sizes, aliases and case agree); all 27 flux-unit triples compose for symbolic flux and wavelength, identities and round trips; planck_radiance / planck_exitance in all 12 (wavelength unit, flux unit) pairs convert back to the same SI value (exp uninterpreted, equal arguments) and exitance = pi * radiance; vegaflux zero points agree across units. Spectrum.to on the real code for all 16 (wavelength unit, value unit) start states and every target, any grid length: wavelengths scaled by the SI ratio, density values divided by it (trapezoid integral preserved by Sigma-extensionality), unitless values kept, units updated, round trips restore wave and value, flux conversions are the unit classes' conversion in SI and round-trip, to(a, b) equals to(a) then to(b) in both argument orders, unknown units / unitless-to-flux refused (the wavelength-grid validation is replaced by the obligation that every grid handed to it is positive and strictly increasing). The Wien peak and the Stefan-Boltzmann total are bounded native stand-ins.',
+    'level_text': 'Proof by complete enumeration plus symbolic algebra, executing the real conversion methods through the interpreter with exact rationals for the decimal literals: all 64 wavelength-unit triples compose (A->B->C = A->C, A->A = 1, every factor is the ratio of the SI sizes, aliases and case agree); all 27 flux-unit triples compose for symbolic flux and wavelength, identities and round trips; planck_radiance / planck_exitance in all 12 (wavelength unit, flux unit) pairs convert back to the same SI value (exp uninterpreted, equal arguments) and exitance = pi * radiance; vegaflux zero points agree across units. Spectrum.to on the real code for all 16 (wavelength unit, value unit) start states and every target, any grid length: wavelengths scaled by the SI ratio, density values divided by it (trapezoid integral preserved by Sigma-extensionality), unitless values kept, units updated, round trips restore wave and value, flux conversions are the conversion of the unit classes in SI and round-trip, to(a, b) equals to(a) then to(b) in both argument orders, unknown units / unitless-to-flux refused (the wavelength-grid validation is replaced by the obligation that every grid handed to it is positive and strictly increasing). The Wien peak and the Stefan-Boltzmann total are bounded native stand-ins.',
     'level_note': 'Spectrum.wave setter validation (numpy sort) abstract: shown to receive only valid grids; that it accepts those is checked natively. Float literals are read as the exact decimals written in the source (1e-6 = 1/10^6); A2 reals. Wien / Stefan-Boltzmann are transcendental facts about the Planck function: native quadrature only.',
 }
 FUNCTIONS = []
